@@ -169,6 +169,15 @@ pub fn file_pool() -> Vec<(String, Vec<u8>)> {
             pool.push((format!("{name} [{enc:?}]"), encode_text(&text, enc)));
         }
     }
+    // short texts behind 0..3 byte order marks: only the first mark is a mark, for every entry point alike
+    let tails = ["osu file format v9\n[General]\nMode: 1\n", "[Metadata]\nTitle:a\n", "osu file format v4", "a"];
+    for k in 0..=3usize {
+        for (i, tail) in tails.iter().enumerate() {
+            let mut b: Vec<u8> = [0xEF, 0xBB, 0xBF].repeat(k);
+            b.extend_from_slice(tail.as_bytes());
+            pool.push((format!("synthetic: {k} UTF-8 marks + text {i}"), b));
+        }
+    }
     pool
 }
 
@@ -303,6 +312,14 @@ fn level_c(acc_out: &mut Acc) -> Value {
             if via_str != base_map {
                 differ("from_str".into(), acc);
             }
+            let via_parse = guarded(|| s.parse::<Beatmap>().map(|m| format!("{m:?}")).map_err(|e| format!("{:?}", e.kind())));
+            if via_parse != base_map {
+                differ("str::parse".into(), acc);
+            }
+            let via_str_trace = guarded(|| rosu_map::from_str::<Trace>(s).map_err(|e| format!("Err({:?})", e.kind()))).and_then(|r| r);
+            if via_str_trace != base {
+                differ("from_str (trace decoder)".into(), acc);
+            }
         }
         let path = dir.join(format!("{:016x}.osu", crate::engine::hash64(name)));
         if std::fs::write(&path, bytes).is_ok() {
@@ -325,7 +342,7 @@ fn level_c(acc_out: &mut Acc) -> Value {
     let _ = std::fs::remove_dir_all(&dir);
     let cur = std::mem::take(acc_out);
     *acc_out = cur.merge(a);
-    json!({"chunk_sizes": "1..=64", "bufreader_capacities": "1..=16", "entry_points": ["from_bytes", "from_str", "from_path", "decode(&[u8])", "decode(BufReader<File>)"]})
+    json!({"chunk_sizes": "1..=64", "bufreader_capacities": "1..=16", "entry_points": ["from_bytes", "from_str", "str::parse", "from_path", "decode(&[u8])", "decode(BufReader<File>)"]})
 }
 
 pub fn replay(case: &Value) -> Vec<Violation> {
@@ -378,9 +395,9 @@ pub fn run(tier: Tier) -> i32 {
     let summary = Summary {
         rule: "(A) choice-tree exploration: every file of <= n bytes over the BOM/LF alphabet x every composition into chunks x \
                every placement of <= 1 (quick) / 2 (thorough) Interrupted answers, each refill of the reader a choice point; \
-               (B) every bundled file x 4 encodings: every single cut offset (dense up to a size limit, else head/tail and line \
+               (B) every bundled file x 4 encodings and 16 short texts behind 0..3 UTF-8 byte order marks: every single cut offset (dense up to a size limit, else head/tail and line \
                boundaries +-2), interrupt placements, every pair of cuts on small files; (C) chunk sizes 1..64, BufReader \
-               capacities 1..16, five entry points. Oracle: trace decoder (and Beatmap in C) equals the single-chunk result. \
+               capacities 1..16, six entry points. Oracle: trace decoder (and Beatmap in C) equals the single-chunk result. \
                states = files + choice points, transitions = chunk/interrupt answers, evaluations = scheduled runs"
             .into(),
         bounds: json!({"A": a, "B": b, "C": c}),
